@@ -1,5 +1,5 @@
 """C01: AEAD encryption == ASCON v1.2 for one-shot, incremental and masked C entry points
-(the C++ entry points are covered by the h_cpp harness, added to this check when built)."""
+and the C++ cipher classes (h_cpp sessions)."""
 from props._gen import run_matrix, replay_generic, diverse_specs, wide_specs, with_args, H
 
 RULE = ('per family (3 one-shot, 3 incremental with random chunking/in-place, 3 masked with a random TRNG tape): the '
@@ -11,7 +11,8 @@ ASSUME = ['reference AEAD validated on pinned official vectors', 'keys and nonce
 
 
 def harnesses():
-    return [with_args(H['aead'], 'aead', ['--arg', 'enc:C01'], 20000, 400000)]
+    return [with_args(H['aead'], 'aead', ['--arg', 'enc:C01'], 20000, 400000),
+            with_args(H['cpp'], 'cpp', ['--arg', 'ciphers'], 12000, 200000)]
 
 
 def run(ctx):
